@@ -17,7 +17,7 @@
     _convert_id_to_sbml. *)
 From Coq Require Import ZArith QArith List Bool String.
 Import ListNotations.
-From SbmlExp Require Import SbmlMath SbmlId SbmlDoc GenSbmlFacts SbmlMathProofs SbmlDocProofs.
+From SbmlExp Require Import SbmlMath SbmlId SbmlDoc SbmlSession GenSbmlFacts ExpectedFacts SbmlMathProofs SbmlDocProofs SbmlSessionProofs.
 
 Theorem C08_facts_pinned :
   gen_facts = mkFacts
@@ -38,9 +38,16 @@ Theorem C08_facts_pinned :
     [(K_FUNCTION_LOG, 10%Z)]
     ["math"%string; "np"%string; "numpy"%string]
     [("e"%string, ME); ("pi"%string, MPi); ("inf"%string, MInf); ("nan"%string, MNan)]
-    Product NsSignAbs IaSetSymbol true.
+    Product NsSignAbs IaSetSymbol RenSimultaneous C08_expected_ref_id C08_expected_math_names true.
 Proof. vm_compute. reflexivity. Qed.
 Print Assumptions C08_facts_pinned.
+
+(** src/mxlpy/sbml/_import.py: read() parses, generates and imports on every call; how the generated module is loaded
+    is the value coq/sbmlexp/ExpectedFacts.v expects for the tree (see there) *)
+Theorem C08_import_facts_pinned :
+  gen_import_facts = mkImportFacts ReadParseAlways C08_expected_loader true.
+Proof. vm_compute. reflexivity. Qed.
+Print Assumptions C08_import_facts_pinned.
 
 (** the decidable side condition of every theorem below, evaluated on the regenerated facts: every
     table entry maps a Python operator / function to the MathML node with the same meaning, piecewise
@@ -153,6 +160,36 @@ Theorem C08_id_total :
 Proof. exact id_total. Qed.
 Print Assumptions C08_id_total.
 
+(** IDENTIFIERS INSIDE THE DOCUMENT.  FULL statement: wherever the exporter refers to a component (inside the math, as the
+    symbol of an initial assignment, as the id of a computed species reference vs. the variable of its rule) it uses the
+    id under which the component is declared.
+    (a) the exporter of fixes/C08-escaped-names-in-math.diff (fact MathIds) -- every name: *)
+Theorem C08_math_ids_declared :
+  forall prefix s : string,
+    math_ref MathIds prefix s = convert_id prefix s
+    /\ ia_symbol MathIds prefix s = convert_id prefix s
+    /\ sref_id MathIds s = rule_variable s.
+Proof. exact math_ids_declared. Qed.
+Print Assumptions C08_math_ids_declared.
+
+(** (b) whatever the regenerated fact is (MathRawNames on the tree as it is; recorded finding names-needing-escaping):
+    proved for names that need no escaping *)
+Theorem C08_math_names_partial :
+  forall prefix s : string, safe_name s = true ->
+    math_ref (f_math_names gen_facts) prefix s = convert_id prefix s
+    /\ ia_symbol (f_math_names gen_facts) prefix s = convert_id prefix s
+    /\ sref_id (f_math_names gen_facts) s = rule_variable s.
+Proof. exact (math_names_safe (f_math_names gen_facts) gen_math_names_known). Qed.
+Print Assumptions C08_math_names_partial.
+
+Theorem C08_raw_names_refuted :
+  exists s : string, s <> EmptyString
+    /\ math_ref MathRawNames "PAR" s <> convert_id "PAR" s
+    /\ ia_symbol MathRawNames "CPD" s <> convert_id "CPD" s
+    /\ sref_id MathRawNames s <> rule_variable s.
+Proof. exact raw_names_refuted. Qed.
+Print Assumptions C08_raw_names_refuted.
+
 (** FULL statement (false of the code; recorded finding names-needing-escaping):
       forall p a b, convert_id p a = convert_id p b -> a = b
     the escaping "__<ord>__" is not injective: *)
@@ -161,12 +198,48 @@ Theorem C08_id_injective_refuted :
 Proof. exact id_injective_refuted. Qed.
 Print Assumptions C08_id_injective_refuted.
 
-(** reference ids of computed coefficients ("<species>ref").  FULL statement (false of the code;
-    recorded finding shared-stoichiometry-reference):
-      forall rs x m, In (x, m) (doc_rules gen_facts rs) -> rule_for x (doc_rules gen_facts rs) = Some m
-    proved when no species has a computed coefficient in two reactions: *)
+(** REFERENCE IDS of computed coefficients.  A reference id is (species, index): index 1 is "<species>ref", index n > 1
+    "<species>ref<n>".  FULL statement: every computed coefficient of the document is reproduced, after import, by the rule
+    bound to ITS reference id.
+
+    (a) the exporter of fixes/C08-stoichiometry-reference-per-coefficient.diff (fact RefCounted) -- no guard: *)
+Theorem C08_document_computed_coefficients :
+  forall (ufn : rfun -> list Q -> option Q) (rho : N -> option Q) (rs : list reaction)
+         (k : key) (f : fundef) (a : list N) (e : expr) (m : ml) (q : Q),
+    In (k, (f, a)) (doc_keyed (set_ref_id RefCounted gen_facts) rs) ->
+    filter (fun s => negb (is_doc s)) (fd_body f) = [SReturn e] ->
+    tree_to_sbml (set_ref_id RefCounted gen_facts) f a = Ok m ->
+    eval_fn ufn rho f a = Some q ->
+    imported_dyn_coef ufn rho (set_ref_id RefCounted gen_facts) rs k = Some q.
+Proof.
+  exact (fun ufn rho => document_computed_coefficients ufn rho (set_ref_id RefCounted gen_facts) C08_facts_good eq_refl).
+Qed.
+Print Assumptions C08_document_computed_coefficients.
+
+Theorem C08_reference_rule_counted :
+  forall (rs : list reaction) (x : key) (m : result ml),
+    In (x, m) (doc_rules (set_ref_id RefCounted gen_facts) rs) ->
+    rule_for x (doc_rules (set_ref_id RefCounted gen_facts) rs) = Some m.
+Proof. exact (reference_rule_counted (set_ref_id RefCounted gen_facts) eq_refl). Qed.
+Print Assumptions C08_reference_rule_counted.
+
+(** (b) the exporter that names the reference after the species only (fact RefPerSpecies; recorded finding
+    shared-stoichiometry-reference) -- proved when no reference id occurs twice, i.e. no species has a computed
+    coefficient in two reactions.  (Both statements hold for the regenerated facts whatever the mode.) *)
+Theorem C08_document_computed_coefficients_partial :
+  forall (ufn : rfun -> list Q -> option Q) (rho : N -> option Q) (rs : list reaction)
+         (k : key) (f : fundef) (a : list N) (e : expr) (m : ml) (q : Q),
+    NoDup (map fst (doc_keyed gen_facts rs)) ->
+    In (k, (f, a)) (doc_keyed gen_facts rs) ->
+    filter (fun s => negb (is_doc s)) (fd_body f) = [SReturn e] ->
+    tree_to_sbml gen_facts f a = Ok m ->
+    eval_fn ufn rho f a = Some q ->
+    imported_dyn_coef ufn rho gen_facts rs k = Some q.
+Proof. exact (fun ufn rho => document_computed_coefficients_nodup ufn rho gen_facts C08_facts_good). Qed.
+Print Assumptions C08_document_computed_coefficients_partial.
+
 Theorem C08_reference_rule_partial :
-  forall (rs : list reaction) (x : N) (m : result ml),
+  forall (rs : list reaction) (x : key) (m : result ml),
     NoDup (map fst (doc_rules gen_facts rs)) ->
     In (x, m) (doc_rules gen_facts rs) ->
     rule_for x (doc_rules gen_facts rs) = Some m.
@@ -174,10 +247,107 @@ Proof. exact (fun rs x m => rule_for_nodup (result ml) x m (doc_rules gen_facts 
 Print Assumptions C08_reference_rule_partial.
 
 Theorem C08_reference_rule_refuted :
-  exists (rs : list reaction) (x : N) (m m' : result ml),
-    In (x, m) (doc_rules gen_facts rs) /\ rule_for x (doc_rules gen_facts rs) = Some m' /\ m <> m'.
+  exists (rs : list reaction) (x : key) (m m' : result ml),
+    In (x, m) (doc_rules (set_ref_id RefPerSpecies gen_facts) rs)
+    /\ rule_for x (doc_rules (set_ref_id RefPerSpecies gen_facts) rs) = Some m' /\ m <> m'.
 Proof. exact shared_ref_refuted. Qed.
 Print Assumptions C08_reference_rule_refuted.
+
+(** ... and what that does to the model: a coefficient 1/2 comes back as -3/2 *)
+Theorem C08_shared_reference_coefficient_refuted :
+  exists (rs : list reaction) (k : key) (f : fundef) (a : list N),
+    In (k, (f, a)) (doc_keyed (set_ref_id RefPerSpecies gen_facts) rs)
+    /\ eval_fn no_fn (at_ 0) f a = Some (1 # 2)
+    /\ imported_dyn_coef no_fn (at_ 0) (set_ref_id RefPerSpecies gen_facts) rs k = Some (- (3 # 2)).
+Proof. exact shared_reference_coefficient_refuted. Qed.
+Print Assumptions C08_shared_reference_coefficient_refuted.
+
+(** PARAMETER RENAMING.  C08_math_sound above quantifies over ALL parameter lists and ALL argument lists: the model
+    names may be a permutation of the function's own parameter names, overlap them, or repeat (simultaneous substitution).
+    With one renaming pass per pair (fact RenSequential) the property fails: f(a, b) = a - b bound to [b, a] *)
+Theorem C08_sequential_rename_refuted :
+  exists (fd : fundef) (args : list N) (m : ml),
+    tree_to_sbml (set_rename RenSequential gen_facts) fd args = Ok m
+    /\ eval_fn no_fn (fun x : N => if N.eqb x 100 then Some 2 else Some 5) fd args = Some 3
+    /\ eval_ml no_fn (fun x : N => if N.eqb x 100 then Some 2 else Some 5) m = Some 0.
+Proof. exact sequential_rename_refuted. Qed.
+Print Assumptions C08_sequential_rename_refuted.
+
+(** ... and that is the only way it can fail: when no model name is the parameter of a later pair ([seq_safe]: in
+    particular when the model names are disjoint from the function's parameter names, or line up with them), one pass per
+    pair exports exactly what the simultaneous pass exports *)
+Theorem C08_sequential_rename_partial :
+  forall (fd : fundef) (args : list N),
+    seq_safe (combine (fd_params fd) args) ->
+    tree_to_sbml (set_rename RenSequential gen_facts) fd args = tree_to_sbml (set_rename RenSimultaneous gen_facts) fd args.
+Proof. exact (tree_to_sbml_sequential_safe gen_facts). Qed.
+Print Assumptions C08_sequential_rename_partial.
+
+(** SESSIONS: "writing ANY model and reading the file back" -- every round trip of a session.  For ALL histories of
+    writes and reads (paths reused, the same stem in several directories, several stems with one module name: [modname] is
+    arbitrary), all documents, whatever parsing / code generation / execution compute ([transform], [exec], [size]) and
+    whatever the clock does: every read returns the model of the document that is in the file it was given.
+
+    (a) the loader of fixes/C08-reimport-stale-bytecode.diff (LoaderCompileSource) -- no guard: *)
+Theorem C08_read_fresh :
+  forall (doc src model : Type) (transform : doc -> src) (exec : src -> model) (size : src -> N) (modname : N -> N)
+         (bytecode : bool) (ops : list (op doc)) (st : state doc src),
+    run doc src model transform exec size modname (mkImportFacts ReadParseAlways LoaderCompileSource true) bytecode ops st
+    = expected doc src model transform exec ops (st_files st).
+Proof.
+  exact (fun doc src model transform exec size modname bytecode =>
+           read_fresh_compile doc src model transform exec size modname bytecode
+                              (mkImportFacts ReadParseAlways LoaderCompileSource true) eq_refl eq_refl).
+Qed.
+Print Assumptions C08_read_fresh.
+
+(** (b) the ordinary source loader (LoaderSourceCached; recorded finding stale-bytecode-on-reimport) -- proved when no
+    byte code is cached (sys.dont_write_bytecode, the environment ./check runs in) ... *)
+Theorem C08_read_fresh_partial :
+  forall (doc src model : Type) (transform : doc -> src) (exec : src -> model) (size : src -> N) (modname : N -> N)
+         (ops : list (op doc)) (st : state doc src),
+    st_pyc st = [] ->
+    run doc src model transform exec size modname (mkImportFacts ReadParseAlways LoaderSourceCached true) false ops st
+    = expected doc src model transform exec ops (st_files st).
+Proof.
+  exact (fun doc src model transform exec size modname =>
+           read_fresh_cached_off doc src model transform exec size modname false
+                                 (mkImportFacts ReadParseAlways LoaderSourceCached true) eq_refl eq_refl eq_refl).
+Qed.
+Print Assumptions C08_read_fresh_partial.
+
+(** ... or when every read happens in a later second than the read before it and than every cached entry *)
+Theorem C08_read_fresh_partial_times :
+  forall (doc src model : Type) (transform : doc -> src) (exec : src -> model) (size : src -> N) (modname : N -> N)
+         (bytecode : bool) (ops : list (op doc)) (st : state doc src) (lo : N),
+    Forall (fun e : N * (N * N * src) => N.le (fst (fst (snd e))) lo) (st_pyc st) ->
+    times_increase doc ops lo ->
+    run doc src model transform exec size modname (mkImportFacts ReadParseAlways LoaderSourceCached true) bytecode ops st
+    = expected doc src model transform exec ops (st_files st).
+Proof.
+  exact (fun doc src model transform exec size modname bytecode =>
+           read_fresh_cached_times doc src model transform exec size modname bytecode
+                                   (mkImportFacts ReadParseAlways LoaderSourceCached true) eq_refl eq_refl).
+Qed.
+Print Assumptions C08_read_fresh_partial_times.
+
+(** refuted without the guard: write 1, read, write 2 over it, read within the same second, same size -> 1 again *)
+Theorem C08_stale_bytecode_refuted :
+  exists ops : list (op N),
+    run_n (mkImportFacts ReadParseAlways LoaderSourceCached true) true ops = [Some 1%N; Some 1%N]
+    /\ expected_n ops = [Some 1%N; Some 2%N].
+Proof. exact stale_bytecode_refuted. Qed.
+Print Assumptions C08_stale_bytecode_refuted.
+
+(** regression: a read() that reuses the module found in sys.modules under the stem's name returns the first model for
+    an edited file and for a file of the same name in another directory, however far apart in time *)
+Theorem C08_read_module_cache_refuted :
+  exists ops : list (op N),
+    times_increase N ops 0
+    /\ run_n (mkImportFacts ReadModuleByStem LoaderCompileSource true) false ops = [Some 1%N; Some 1%N; Some 1%N]
+    /\ expected_n ops = [Some 1%N; Some 2%N; Some 3%N].
+Proof. exact module_by_stem_refuted. Qed.
+Print Assumptions C08_read_module_cache_refuted.
 
 (** outside the property's quantifier (single-expression rate laws), recorded in design/C08.md: the
     exporter converts the LAST statement of a body, Python returns at the FIRST return *)
@@ -254,4 +424,25 @@ Proof.
   - eexists. split; [reflexivity|vm_compute; reflexivity].
   - eexists. split; [vm_compute; reflexivity|]. split; vm_compute; reflexivity.
   - eexists. split; [vm_compute; reflexivity|vm_compute; reflexivity].
+Qed.
+
+(** non-vacuity of the renaming clause: a function whose own parameter names are the model names it is bound to in swapped
+    order, and one bound twice to the same model name, are exported with the meaning Python gives them; a session with a
+    reused path, a second directory and a shared module name meets the hypotheses of the session theorems *)
+Example C08_permuting_rename_nonvacuous :
+  let rho := fun x : N => if N.eqb x 100 then Some 2 else Some 5 in
+  let f := mkFun [100; 101]%N [SReturn (EBin BSub (EName 100) (EName 101))] in
+  (exists m, tree_to_sbml gen_facts f [101; 100]%N = Ok m
+             /\ eval_fn no_fn rho f [101; 100]%N = Some 3 /\ eval_ml no_fn rho m = Some 3)
+  /\ (exists m, tree_to_sbml gen_facts f [101; 101]%N = Ok m
+                /\ eval_fn no_fn rho f [101; 101]%N = Some 0 /\ eval_ml no_fn rho m = Some 0)
+  /\ (let ops := [OWrite (0, 0)%N 1%N; ORead (0, 0)%N 5%N; OWrite (0, 0)%N 2%N; ORead (0, 0)%N 5%N;
+                   OWrite (1, 0)%N 3%N; ORead (1, 0)%N 5%N; OWrite (1, 9)%N 4%N; ORead (1, 9)%N 5%N] in
+       run N N N idN idN (fun _ => 7%N) (fun _ => 0%N) (mkImportFacts ReadParseAlways LoaderCompileSource true) true ops (mkState [] [] [])
+       = [Some 1%N; Some 2%N; Some 3%N; Some 4%N]).
+Proof.
+  cbv zeta. split; [|split].
+  - eexists. split; [vm_compute; reflexivity|]. split; vm_compute; reflexivity.
+  - eexists. split; [vm_compute; reflexivity|]. split; vm_compute; reflexivity.
+  - vm_compute. reflexivity.
 Qed.
